@@ -326,6 +326,7 @@ func runHarness(ld *loaded, h harnessRef, cfg *Config, known map[string]bool, de
 			n++
 		}
 	}
+	e.vacuityViolations()
 	return res
 }
 
@@ -518,6 +519,8 @@ func reproduces(ob *Obligation, o nativeOutcome) bool {
 		return o.Result == "assert-fail" && o.Label == ob.Label
 	case "panic":
 		return o.Result == "panic" || o.Result == "timeout" || o.Result == "oom"
+	case "pathpanic":
+		return o.Result == "path-end-panic" || o.Result == "panic"
 	case "alloc":
 		return o.Result == "oom" || o.Result == "panic" || o.Result == "timeout"
 	case "loop":
